@@ -1,2 +1,66 @@
-(** C02 — statements only; see Proofs/. *)
-From RRSS Require Import Base.Outcome.
+(** C02 — Every spelling of a program parses to the same syntax tree.
+    Statements only; proofs in Proofs/ParseSound.v, GrammarLaws.v, LiteralLaws.v.
+    The grammar itself is Front/Grammar.v. *)
+From Coq Require Import List ZArith NArith Bool.
+From RRSS Require Import Base.Outcome Base.Chars Base.F64 Base.F64Text Exec.Ops Front.Ast Front.Token Front.Lexer Front.Parser Front.Grammar.
+From RRSS Require Import Proofs.ParseSound Proofs.GrammarLaws Proofs.LiteralLaws.
+Import ListNotations.
+Open Scope N_scope.
+
+(** Whatever expression tree the parser returns — in either profile, for any fuel, from any state —
+    is a tree the declarative grammar [g] assigns, at the loosest level, to exactly the tokens it
+    consumed.  The grammar is insensitive to positions, so trees are determined up to source ranges
+    by the sequence of token types and name spellings: keyword alias, letter case, whitespace,
+    ignorable punctuation and comments are gone before the grammar is consulted (C12, C15 and
+    [C02_keyword_alias_any_case] below). *)
+Theorem C02_expression_in_grammar :
+  forall prof f s e s', parse_expression prof f s = Ok (e, s') ->
+    exists ts, ptoks s = ts ++ ptoks s' /\ g 5 ts e.
+Proof. exact parse_expression_sound. Qed.
+
+(** ... and the grammar's trees obey the precedence ladder
+    logical(5) < comparison(4) < term(3) < factor(2) < unary(1): the left operand of an operator binds
+    at least as tightly as the operator (chains nest to the left: left associativity), every right
+    operand, including every further element of a list operand, binds strictly tighter *)
+Theorem C02_grammar_levels : forall L ts e, g L ts e -> levels_ok L e.
+Proof. exact g_levels. Qed.
+
+(** every alias of the keyword table, spelled in any letter case, is its token type *)
+Theorem C02_keyword_alias_any_case :
+  forall a ty w, In (a, ty) keywords -> str_to_lowercase w = str_to_lowercase a -> match_keyword w = Some ty.
+Proof. exact keyword_alias_any_case. Qed.
+
+(** a number token's value is the value of its text; a string literal's payload is exactly the text
+    between its quotes *)
+Theorem C02_number_literal_value :
+  forall prof lx s0 start r stg, scan_number prof lx s0 start = Ok (Some (r, stg)) -> payload_ok (lr_token r).
+Proof. exact scan_number_payload. Qed.
+
+Theorem C02_string_literal_exact :
+  forall prof lx c after start r stg,
+    scan_delimited prof lx (c :: after) start 34 TStringLiteral (lit "Unterminated string literal") = Ok (r, stg) ->
+    c = 34 -> byte_len (c :: after) < u32_limit * u32_limit -> payload_ok (lr_token r).
+Proof. exact string_literal_payload. Qed.
+
+(** Non-vacuity: `1 + 2 * 3, 4 and 5 is 6` in two spellings gives the same tree, which has the shape the
+    ladder dictates; the list attaches to the innermost operator. *)
+Example C02_example :
+  let strip := fun r => match r with ParseOk [BNonEmpty [SOutput e]] => Some e | _ => None end in
+  let n := fun k => EPrimary (PLit (LNumber (f_of_Z k)) (mkRange (mkLoc 0 0) (mkLoc 0 0))) in
+  match strip (parse Debug (lit "say 1 + 2 * 3, 4 and 5 is 6")), strip (parse Release (lit "SHOUT 1 with 2 of 3, and 4 AND 5's 6")) with
+  | Some e1, Some e2 =>
+      levels_ok 5 e1 /\ levels_ok 5 e2 /\
+      match e1, e2 with
+      | EBinary OpAnd (EBinary OpPlus _ (EBinary OpMultiply _ _ [_]) []) (EBinary OpEq _ _ []) [],
+        EBinary OpAnd (EBinary OpPlus _ (EBinary OpMultiply _ _ [_]) []) (EBinary OpEq _ _ []) [] => True
+      | _, _ => False
+      end
+  | _, _ => False
+  end.
+Proof. vm_compute. repeat split; try exact I; repeat constructor. Qed.
+
+Print Assumptions C02_expression_in_grammar.
+Print Assumptions C02_grammar_levels.
+Print Assumptions C02_keyword_alias_any_case.
+Print Assumptions C02_number_literal_value.
+Print Assumptions C02_string_literal_exact.
